@@ -112,6 +112,17 @@ func (c *Check) Spec(rule string, m Macros, s FnSpec) {
 					ok = true
 				}
 			}
+			if !ok && got == "nil" && r.Index == len(ret.Results)-1 && fa.resultKind() == "error" {
+				// normal form of `return X`: `if X != nil { return X }; return nil` - the wanted error value is the
+				// one whose nil-ness decides this return
+				conds := fa.PathCondStrings(ret.Block())
+				for _, w := range r.Want {
+					if conds["("+m.X(w)+" == nil)"] {
+						ok = true
+						got = "nil under (" + m.X(w) + " == nil)"
+					}
+				}
+			}
 			c.Req(ok, rule, fmt.Sprintf("%s/return:%s#%d", funcName(fn), r.Label, i), ret.Pos(), m.Fold(got), fmt.Sprintf("result %d of a non-rejecting return is %s; allowed: %v", r.Index, m.Fold(got), r.Want))
 		}
 		if len(rets) == 0 {
